@@ -379,6 +379,9 @@ theorem min_max_double (cfg : Option Config) (vs : List Rat) (hmm : (new .double
   · intro v hv; show v ≤ Gen.histDoubleMinInit; rw [doubleMinInit_eq]; exact (hr v hv).2
   · intro v hv; show Gen.histDoubleMaxInit ≤ v; rw [doubleMaxInit_eq]; exact (hr v hv).1
 
+/-- D07 in the model: a histogram that only saw 0.0 reports max = 0 (not `numeric_limits<double>::min()`) -/
+example : (hist .double none [0]).max = 0 ∧ (hist .double none [0]).min = 0 := by decide +kernel
+
 /-- every `int64_t` is within the long sentinels -/
 theorem long_in_range (i : Int) (h : -(2 ^ 63) ≤ i ∧ i < 2 ^ 63) :
     Kind.long.maxInit ≤ (i : Rat) ∧ (i : Rat) ≤ Kind.long.minInit := by
